@@ -66,6 +66,7 @@ type Monitors struct {
 	revivedExpired map[uuid.UUID]bool
 	// the delivery delay that was injected on the subscription when the delivery was enqueued
 	delayAt map[uuid.UUID]int64
+	doneAt  map[uuid.UUID]int64 // when a delivery was seen to become completed (observer's clock)
 	// the filter a subscription had when a delivery was routed to it
 	enqFilter map[uuid.UUID]string
 	// maintenance jobs that failed: the other jobs that completed a round with minimum age 0 since
@@ -92,7 +93,7 @@ type LinkMis struct {
 
 func NewMonitors() *Monitors {
 	return &Monitors{pubs: map[uuid.UUID]*pubRecord{}, leases: map[uuid.UUID]*leaseRecord{}, acked: map[uuid.UUID]int64{},
-		policy: map[uuid.UUID][2]int64{}, reqDL: map[uuid.UUID]dlReq{}, revivedExpired: map[uuid.UUID]bool{}, delayAt: map[uuid.UUID]int64{}, enqFilter: map[uuid.UUID]string{}, jobRounds: map[string]map[string]bool{}, lastSeek: map[uuid.UUID]int64{}, reopened: map[uuid.UUID]bool{}, handouts: map[uuid.UUID]int{}, snaps: map[string]*snapRecord{},
+		policy: map[uuid.UUID][2]int64{}, reqDL: map[uuid.UUID]dlReq{}, revivedExpired: map[uuid.UUID]bool{}, delayAt: map[uuid.UUID]int64{}, doneAt: map[uuid.UUID]int64{}, enqFilter: map[uuid.UUID]string{}, jobRounds: map[string]map[string]bool{}, lastSeek: map[uuid.UUID]int64{}, reopened: map[uuid.UUID]bool{}, handouts: map[uuid.UUID]int{}, snaps: map[string]*snapRecord{},
 		lastPull: map[uuid.UUID]int64{}, dlDone: map[uuid.UUID]bool{}, Counts: map[string]int{}, linkMissing: map[uuid.UUID]bool{}, seekAcked: map[uuid.UUID]bool{}}
 }
 
@@ -334,6 +335,16 @@ func (m *Monitors) Observe(idx int, r *Result) {
 			if a := r.After[id]; a != nil && b.CompletedAt == nil && a.CompletedAt != nil {
 				m.seekAcked[id] = true
 			}
+		}
+	}
+	// ---------- the monitor's own clock of completions (any op): the stored completed_at is what
+	// the age-based jobs go by, so it is not taken on trust ----------
+	for id, a := range r.After {
+		b := r.Before[id]
+		if a.CompletedAt != nil && (b == nil || b.CompletedAt == nil) {
+			m.doneAt[id] = r.TAfter
+		} else if a.CompletedAt == nil {
+			delete(m.doneAt, id)
 		}
 	}
 	// ---------- bookkeeping of re-opened rows (any op) ----------
@@ -1161,6 +1172,11 @@ func (m *Monitors) checkPrune(r *Result) {
 			for id, a := range r.After {
 				if a.CompletedAt != nil && ns(*a.CompletedAt) < now-r.Op.D {
 					m.fire("C15", "completed-left-behind", "prune_completed_deliveries removed %d rows (batch %d) but left delivery %s, completed longer ago than the age limit, behind", n, r.Op.Max, id)
+					break
+				}
+				// (by the observer's clock: the delivery was seen to become acknowledged at doneAt)
+				if at, seen := m.doneAt[id]; seen && a.CompletedAt != nil && at < r.T-r.Op.D-Ms {
+					m.fire("C15", "completed-left-behind", "prune_completed_deliveries (minimum age %d ns, batch %d, removed %d) at t=%d left delivery %s behind, which was acknowledged at t=%d (its stored completion time is %d)", r.Op.D, r.Op.Max, n, r.T, id, at, ns(*a.CompletedAt))
 					break
 				}
 			}
